@@ -17,7 +17,12 @@ import warnings
 
 import numpy as np
 
-from harness import core
+import sys
+from pathlib import Path
+
+sys.path.insert(0, str(Path(__file__).resolve().parent.parent.parent))
+
+from harness import core  # noqa: E402
 
 
 # ------------------------------------------------------------------ hashing
@@ -240,6 +245,33 @@ def catalogue(ao):
     add("wfslib.computeFillFactor", WF.computeFillFactor, ["MASK", "SUBPOS"], lambda f, a: f(a[0], a[1], 2))
     add("wfslib.findActiveSubaps", WF.findActiveSubaps, ["MASK"], lambda f, a: f(4, a[0], 0.5, returnFill=True))
     add("wfslib.make_subaps_2d", WF.make_subaps_2d, ["SLDATA", "MASK4"], lambda f, a: f(a[0], a[1]))
+    # variants: same array size, one scalar changed at a time (a cache keyed on too few parameters makes these order dependent)
+    for k, (r0, dl, L0, l0) in enumerate([(0.3, 0.1, 20.0, 0.01), (0.15, 0.2, 20.0, 0.01), (0.15, 0.1, 5.0, 0.01), (0.15, 0.1, 20.0, 0.05)]):
+        add("phasescreen.ft_phase_screen[seeded,v%d]" % k, PH.ft_phase_screen, [], lambda f, a, q=(r0, dl, L0, l0): f(q[0], 8, q[1], q[2], q[3], seed=1))
+        add("phasescreen.ft_sh_phase_screen[seeded,v%d]" % k, PH.ft_sh_phase_screen, [], lambda f, a, q=(r0, dl, L0, l0): f(q[0], 8, q[1], q[2], q[3], seed=2))
+    for k, (wvl, d1, d2, z) in enumerate([(600e-9, 0.01, 0.02, 100.0), (500e-9, 0.02, 0.02, 100.0), (500e-9, 0.01, 0.01, 100.0), (500e-9, 0.01, 0.02, -50.0)]):
+        add("opticalpropagation.angularSpectrum[v%d]" % k, OP.angularSpectrum, ["FIELD"], lambda f, a, q=(wvl, d1, d2, z): f(a[0], *q))
+        add("opticalpropagation.twoStepFresnel[v%d]" % k, OP.twoStepFresnel, ["FIELD"], lambda f, a, q=(wvl, d1, d2, z): f(a[0], *q))
+        add("opticalpropagation.oneStepFresnel[v%d]" % k, OP.oneStepFresnel, ["FIELD"], lambda f, a, q=(wvl, d1, d2, z): f(a[0], q[0], q[1], q[3]))
+        add("opticalpropagation.lensAgainst[v%d]" % k, OP.lensAgainst, ["FIELD"], lambda f, a, q=(wvl, d1, d2, z): f(a[0], q[0], q[1], abs(q[3]) / 50.0))
+    for k, (rad, cen, org) in enumerate([(3, (0, 0), "corner"), (3, (1.0, 0.5), "middle"), (2, (4.0, 4.0), "corner"), (3.5, (0, 0), "middle")]):
+        add("functions.circle[v%d]" % k, PU.circle, [], lambda f, a, q=(rad, cen, org): f(q[0], 8, q[1], origin=q[2]))
+    for k, (j, n, rot) in enumerate([(5, 8, 0.0), (6, 8, 0.3), (5, 9, 0.3), (12, 8, 0.3)]):
+        add("zernike.zernike_noll[v%d]" % k, ZN.zernike_noll, [], lambda f, a, q=(j, n, rot): f(*q))
+    add("zernike.phaseFromZernikes[rot,rms]", ZN.phaseFromZernikes, ["COEF"], lambda f, a: f(a[0], 8, norm="rms", rot=0.4))
+    for k, (ps, r0, L0) in enumerate([(0.25, 0.2, 20.0), (0.5, 0.1, 20.0), (0.5, 0.2, 40.0)]):
+        add("infinitephasescreen.PhaseScreenVonKarman[seeded,v%d]" % k, IS.PhaseScreenVonKarman, [], lambda f, a, q=(ps, r0, L0): _rows(f(4, q[0], q[1], q[2], random_seed=3)))
+        add("infinitephasescreen.PhaseScreenKolmogorov[seeded,v%d]" % k, IS.PhaseScreenKolmogorov, [],
+            lambda f, a, q=(ps, r0, L0): _rows(f(4, q[0], q[1], q[2], random_seed=4, stencil_length_factor=2)))
+    for k, (r0, L0) in enumerate([(0.3, 25.0), (0.15, 50.0)]):
+        add("slopecovariance.structure_function_vk[v%d]" % k, SC.structure_function_vk, ["RAD"], lambda f, a, q=(r0, L0): f(a[0], *q))
+        add("turb.phase_covariance[v%d]" % k, TB.phase_covariance, ["RAD"], lambda f, a, q=(r0, L0): f(a[0], *q))
+        add("slopecovariance.wfs_covariance[v%d]" % k, SC.wfs_covariance, ["POS1", "POS2"], lambda f, a, q=(r0, L0): f(4, 4, a[0], a[1], 0.5, 0.4, *q))
+    for k, (n, w) in enumerate([(8, 3.0), ((8, 8), (2.0, 2.0)), (9, 2.0)]):
+        add("functions.gaussian2d[v%d]" % k, FN.gaussian2d, [], lambda f, a, q=(n, w): f(*q))
+    for k, band in enumerate(["r", "R", "i", "I", "K"]):
+        add("astronomy.magnitude_to_flux[%s]" % band, AS.magnitude_to_flux, [], lambda f, a, b=band: f(4.0, b))
+        add("astronomy.flux_to_magnitude[%s]" % band, AS.flux_to_magnitude, [], lambda f, a, b=band: f(2.5e5, b))
     not_called = {
         "temporal_ps.plot_tps": "opens a matplotlib figure and calls pyplot.show()",
         "karhunenLoeve.gkl_basis/gkl_fcom/gkl_kernel/gkl_sfi/pcgeom/pol2car/set_pctr/setpincs": "pipeline stages exercised through make_kl",
@@ -339,6 +371,68 @@ class Recorder:
         if nm in ("COV",):
             a[idx[::-1]] = a[idx]
         self.events.append(dict(op="mutate", args=[self.key_index(p, nm)], res=self.t(arr_token(a))))
+
+
+def worker(order_seed, out_path):
+    """fresh interpreter: call every catalogue entry once, in an order derived from order_seed; dump content hashes"""
+    ao = core.import_aotools()
+    entries, _ = catalogue(ao)
+    pool = make_pool(np.random.default_rng(77))
+    idx = list(range(len(entries)))
+    if order_seed == 1:
+        idx.reverse()
+    elif order_seed > 1:
+        idx = list(np.random.default_rng(order_seed).permutation(len(entries)))
+    out = []
+    for i in idx:
+        e = entries[int(i)]
+        args = [pool[nm] for nm in e["arrs"]]
+        before = [arr_token(x) for x in args]
+        try:
+            with warnings.catch_warnings():
+                warnings.simplefilter("ignore")
+                with np.errstate(all="ignore"), contextlib.redirect_stdout(io.StringIO()):
+                    res = e["call"](e["fn"], args)
+        except Exception as ex:  # noqa
+            res = ("raised", type(ex).__name__)
+        out.append(dict(f=int(i), name=e["name"], arrs=e["arrs"], before=before, after=[arr_token(x) for x in args],
+                        res=res_token(res), exempt=bool(e["exempt"])))
+    with open(out_path, "w") as fh:
+        json.dump(dict(pool={nm: arr_token(pool[nm]) for nm in sorted(pool)}, calls=out), fh)
+
+
+def cross_process_trace(n_orders):
+    """one trace made of the call events of several fresh interpreters that used different call orders: the memo of
+    PurityTrace then spans processes, i.e. histories that start from a freshly imported library"""
+    import subprocess
+    import sys
+    tmp = tempfile.mkdtemp(prefix="aoverif-c20w-")
+    try:
+        procs = []
+        for k in range(n_orders):
+            outp = os.path.join(tmp, "w%d.json" % k)
+            procs.append((outp, subprocess.Popen([sys.executable, "-B", os.path.abspath(__file__), "--worker", str(k), outp],
+                                                 stdout=subprocess.PIPE, stderr=subprocess.STDOUT, text=True)))
+        data = []
+        for outp, p in procs:
+            o, _ = p.communicate(timeout=1200)
+            if p.returncode != 0:
+                raise core.MachineryError("purity worker failed: %s" % o[-800:])
+            data.append(json.load(open(outp)))
+    finally:
+        shutil.rmtree(tmp, ignore_errors=True)
+    tok = {}
+    t = lambda h: tok.setdefault(h, len(tok) + 1)
+    names = sorted(data[0]["pool"])
+    events = [dict(op="pool", tokens=[t(data[0]["pool"][nm]) for nm in names])]
+    for d in data:
+        if d["pool"] != data[0]["pool"]:
+            raise core.MachineryError("workers built different pools")
+        for c in d["calls"]:
+            events.append(dict(op="call", f=c["f"] + 1, name=c["name"], args=[names.index(nm) + 1 for nm in c["arrs"]],
+                               before=[t(h) for h in c["before"]], after=[t(h) for h in c["after"]], res=t(c["res"]),
+                               exempt=c["exempt"]))
+    return events
 
 
 def validate(run, traces, label):
@@ -441,6 +535,8 @@ def run(run):
             findings += rec.findings
     finally:
         np.random.set_state(saved)
+    n_inproc = len(traces)
+    traces.append(cross_process_trace(3 if quick else 6))
     rt, rejected = validate(run, traces, "PurityTrace/recorded")
     if rt.violated:
         run.violation("trace-violates-" + rt.violated, dict(note="a recorded program violates a model invariant"), dict(kind="none"))
@@ -454,6 +550,10 @@ def run(run):
                     raised[ev["name"]] = ev["raised"]
     for tid, l in rejected:
         key, detail = explain(traces[tid - 1], l)
+        if tid == len(traces):
+            run.violation(key + ":across-fresh-interpreters", dict(detail, note="call order differs between fresh interpreters"),
+                          dict(kind="program", cross_process=True))
+            continue
         prog = [dict(op=e["op"], name=e.get("name"), args=e.get("args")) for e in traces[tid - 1][1:l]]
         run.violation(key, dict(detail, trace=tid, position=l), dict(kind="program", program=prog, event=traces[tid - 1][l - 1]))
     for key, detail in findings:
@@ -468,7 +568,7 @@ def run(run):
         raise core.MachineryError("entry points never called: %s" % never)
     run.sample([dict(op=e["op"], name=e.get("name"), args=e.get("args"), before=e.get("before"), after=e.get("after"), res=e.get("res"))
                 for e in traces[0][:6]])
-    run.aux.update(entries=len(entries), model_programs=n_model, long_programs=len(traces) - n_model,
+    run.aux.update(entries=len(entries), model_programs=n_model, long_programs=n_inproc - n_model, cross_process_orders=3 if quick else 6,
                    events=sum(len(t) for t in traces), min_calls_per_entry=min(calls.values()), rejected=len(rejected))
     run.bounds = dict(cfg=cfg, skeletons=len(skels), long_program_length=30)
     run.exhaustive = False
@@ -482,6 +582,13 @@ def run(run):
 def replay(run, case):
     ao = core.import_aotools()
     entries, _ = catalogue(ao)
+    if case.get("kind") == "program" and case.get("cross_process"):
+        ev = cross_process_trace(3)
+        _, rejected = validate(run, [ev], "PurityTrace/replay-cross-process")
+        for tid, l in rejected:
+            key, detail = explain(ev, l)
+            run.violation(key + ":across-fresh-interpreters", detail, case)
+        return
     names = {e["name"]: i for i, e in enumerate(entries)}
     if case.get("kind") != "program":
         return
@@ -502,3 +609,10 @@ def replay(run, case):
     for tid, l in rejected:
         key, detail = explain(rec.events, l)
         run.violation(key, detail, case)
+
+
+if __name__ == "__main__":
+    import sys
+    if len(sys.argv) == 4 and sys.argv[1] == "--worker":
+        sys.path.insert(0, str(core.VERIF))
+        worker(int(sys.argv[2]), sys.argv[3])
